@@ -65,4 +65,15 @@ def c17(prop, tier, res, replay=None):
         "outbound: real HTTPDeliverer.Deliver against an httptest target capturing headers and body, clock on every window boundary +-1 ns / +-1 s"], replay)
 
 
-TABLE = {"C06": c06, "C16": c16, "C10": c10, "C08": c08, "C09": c09, "C17": c17}
+APIAUTH = dict(sub="apiauth", mode="apiauth", family="apiauth", shards=q(4, 16),
+               args=lambda tier, sd, sh: ["-seed", sd * 1000 + sh, "-configs", 80 if tier == "quick" else 800, "-requests", 40 if tier == "quick" else 60],
+               key_fields=["k", "cfg", "rawPath", "endpoint", "auth", "values", "path"])
+
+
+def c11(prop, tier, res, replay=None):
+    return pure.check_cases(prop, tier, res, [APIAUTH], [
+        "configurations are generated as text through the real parser/compiler/loadAuth; Pull requests go through the real pullapi.Server.ServeHTTP, Worker requests through the real workerapi.Server methods with gRPC metadata in the context (no network transport, no mTLS), Admin requests through the real admin handler",
+        "the endpoint a request addresses is the path.Clean-ed URL path minus the operation (stdlib path.Clean is trusted)"], replay)
+
+
+TABLE = {"C11": c11, "C06": c06, "C16": c16, "C10": c10, "C08": c08, "C09": c09, "C17": c17}
